@@ -9,6 +9,7 @@ import (
 	"sort"
 	"sync"
 	"testing"
+	"time"
 
 	"github.com/pion/interceptor"
 	"github.com/pion/rtp"
@@ -19,6 +20,7 @@ type vfHxScript struct {
 	Level   string `json:"level"` // "seq": field-by-field header comparison, "conc": concurrent writers
 	Ext     int    `json:"ext"`
 	Base    uint32 `json:"base"` // value of the shared uint32 counter when the script starts
+	Twin    bool   `json:"twin"` // "conc": a second interceptor of the same factory writes throughout
 	Streams []struct {
 		S     uint32 `json:"s"`
 		ID    int    `json:"id"`    // negotiated transport-cc extension id, 0 = not negotiated
@@ -113,7 +115,40 @@ func vfHxHeader(t *testing.T, shape, own, id int, ssrc uint32) (*rtp.Header, []b
 	return h, pl
 }
 
+// vfHxTwin: a second interceptor of the same factory (another connection) whose only stream keeps writing for the whole
+// script; the transport-wide numbers are per interceptor, so nothing of it may show in the run of the first one
+func vfHxTwin(t *testing.T, f *HeaderExtensionInterceptorFactory, stop <-chan struct{}, done chan<- struct{}) {
+	t.Helper()
+	ic, err := f.NewInterceptor("twin")
+	if err != nil {
+		t.Fatalf("VERIF-INFRA NewInterceptor (twin): %v", err)
+	}
+	w := ic.BindLocalStream(vfHxInfo(77, 5, 0), interceptor.RTPWriterFunc(
+		func(h *rtp.Header, pl []byte, _ interceptor.Attributes) (int, error) { return len(pl), nil }))
+	go func() {
+		defer close(done)
+		for i := 0; ; i++ {
+			select {
+			case <-stop:
+				return
+			default:
+			}
+			_, _ = w.Write(&rtp.Header{Version: 2, SSRC: 77, SequenceNumber: uint16(i)}, []byte{1}, nil) //nolint:gosec
+			if i%64 == 63 {
+				time.Sleep(50 * time.Microsecond)
+			}
+		}
+	}()
+}
+
 func vfHxNew(t *testing.T, base uint32) *HeaderExtensionInterceptor {
+	t.Helper()
+	hx, _ := vfHxNewF(t, base)
+
+	return hx
+}
+
+func vfHxNewF(t *testing.T, base uint32) (*HeaderExtensionInterceptor, *HeaderExtensionInterceptorFactory) {
 	t.Helper()
 	f, err := NewHeaderExtensionInterceptor()
 	if err != nil {
@@ -129,7 +164,7 @@ func vfHxNew(t *testing.T, base uint32) *HeaderExtensionInterceptor {
 	}
 	hx.nextSequenceNr = base // the counter of a connection that has already sent `base` packets
 
-	return hx
+	return hx, f
 }
 
 func TestVerifHdrExtExec(t *testing.T) {
@@ -214,7 +249,15 @@ type vfHxObs struct {
 // own packets carry when they reach the next writer; the logs are merged by unwrapped value and run-length encoded.
 func vfHxConc(t *testing.T, sc *vfHxScript, out *vfWriter) { //nolint:gocognit,cyclop
 	t.Helper()
-	hx := vfHxNew(t, sc.Base)
+	hx, fac := vfHxNewF(t, sc.Base)
+	if sc.Twin {
+		stop, done := make(chan struct{}), make(chan struct{})
+		vfHxTwin(t, fac, stop, done)
+		defer func() {
+			close(stop)
+			<-done
+		}()
+	}
 	k := len(sc.Assign)
 	type gstate struct {
 		seen    []int // wire numbers of the current batch, own order (-1: extension missing)
